@@ -426,9 +426,14 @@ Theorem C08_htree_proof_verifies :
 Proof. exact htree_proof_verifies. Qed.
 Print Assumptions C08_htree_proof_verifies.
 
-(* ---- Close + Open (OpenWith re-derives size from the commit-log file and dLogSize = nodesUpto(size));
-   `aht_run2` = histories with restarts, tracking the number of commit-log entries on disk, which
-   never shrinks (ResetSize does not truncate the file) ---- *)
+(* ---- Sync / Close / Open / crash images (model: run2, aht_step2, reopen_at in Merkle/AHT.v; since
+   /repo 09014a8 SetOffset drops what lies behind the offset).  `aht_run2 H ops` = state after ANY
+   history of A2 d (Append) / R2 k (ResetSize) / Reopen2 (Close + Open) / Crash2 c (Close, then Open
+   on a copy whose commit log was cut to c entries, payload and digest logs left longer);
+   `spec_run2 ops` = (payload list, payload list the commit log on disk stands for, append buffered)
+   — a plain list specification: appends extend, a legal reset truncates, a restart returns to what
+   the commit log stands for, which is the current content unless the last effective ResetSize was
+   followed by no append. ---- *)
 
 (* A restart when the commit log holds exactly `size` entries gives back the very same state. *)
 Theorem C08_aht_reopen_same_state :
@@ -436,22 +441,40 @@ Theorem C08_aht_reopen_same_state :
 Proof. exact reopen_ok. Qed.
 Print Assumptions C08_aht_reopen_same_state.
 
-(* Hence a history all of whose restarts happen at such moments (no rewind since the largest size
-   was reached) is, state for state, the history without the restarts: every C08_aht_* theorem
-   applies to it. *)
-Theorem C08_aht_restarts_invisible :
-  forall (H : bytes -> bytes) (ops : list aop2),
-    (forall pre post, ops = pre ++ Reopen2 :: post ->
-       snd (aht_run2 H pre) = size (fst (aht_run2 H pre))) ->
-    fst (aht_run2 H ops) = aht_run H (strip2 ops).
-Proof. exact aht_run2_durable. Qed.
-Print Assumptions C08_aht_restarts_invisible.
+(* OpenWith on an image whose payload and digest logs extend beyond what the commit log commits
+   (c <= size entries): all three sizes come from the commit log; the tree is the tree of the first c
+   payloads and satisfies the digest-log invariant, so by C08_aht_append_inv / C08_aht_reset_append
+   the stale tails are overwritten by the next appends and never read. *)
+Theorem C08_aht_crash_image_is_prefix :
+  forall (H : bytes -> bytes) (t : aht) (c : N),
+    Inv H t -> c <= size t ->
+    exists t', reopen_at t c = Ok t' /\ Inv H t' /\
+               payloads t' = firstn (N.to_nat c) (payloads t) /\ size t' = c.
+Proof. exact crash_image_is_prefix. Qed.
+Print Assumptions C08_aht_crash_image_is_prefix.
 
-(* Without that premise the statement is REFUTED (known finding "ahtree rewind not durable"), for
-   every hash function: append x5, ResetSize(2), Append, Close, Open => size 5 for 3 payloads. *)
-Theorem C08_aht_rewind_not_durable_refuted :
+(* For EVERY history with resets, restarts and crash images the tree holds exactly the specified
+   payload list and is observationally (size, every RootAt, InclusionProof, ConsistencyProof, with
+   their errors) the tree obtained by appending that list to an empty tree. *)
+Theorem C08_aht_run2_observables :
+  forall (H : bytes -> bytes) (ops : list aop2),
+    let t := rtree (aht_run2 H ops) in
+    let L := fst (fst (spec_run2 ops)) in
+    let t0 := aht_run H (map OAppend L) in
+    payloads t = L /\ size t = size t0 /\
+    (forall n, root_at t n = root_at t0 n) /\
+    (forall i j, inclusion_proof t i j = inclusion_proof t0 i j) /\
+    (forall i j, consistency_proof t i j = consistency_proof t0 i j).
+Proof. exact aht_run2_observables. Qed.
+Print Assumptions C08_aht_run2_observables.
+
+(* RESIDUAL, refuted for every hash function (known finding "ahtree bare rewind not durable"):
+   a restart is NOT always invisible — after append x5, ResetSize(2) a Close + Open changes the size
+   (back to 5): ResetSize does not cut the commit-log file, only the sync of a later append does.
+   The resurrected tree is the consistent pre-rewind tree (C08_aht_run2_observables covers it). *)
+Theorem C08_aht_bare_rewind_not_durable_refuted :
   exists ops : list aop2,
     forall H : bytes -> bytes,
-      size (fst (aht_run2 H ops)) = 5 /\ lenN (final_payloads (strip2 ops)) = 3.
-Proof. exact aht_rewind_not_durable_refuted. Qed.
-Print Assumptions C08_aht_rewind_not_durable_refuted.
+      size (rtree (aht_run2 H (ops ++ [Reopen2]))) <> size (rtree (aht_run2 H ops)).
+Proof. exact aht_bare_rewind_not_durable_refuted. Qed.
+Print Assumptions C08_aht_bare_rewind_not_durable_refuted.
